@@ -25,6 +25,11 @@ impl<K: PartialEq, V> SmallMap<K, V> {
         self.0.push((k, v));
     }
 
+    /// Appends an entry without replacing an existing one with the same key.
+    pub fn push(&mut self, k: K, v: V) {
+        self.0.push((k, v));
+    }
+
     pub fn get<Q>(&self, q: &Q) -> Option<&V>
     where
         K: Borrow<Q>,
